@@ -211,8 +211,10 @@ func NdJSON(raw []byte, limit uint32) bool {
 	var l []byte
 	for len(raw) != 0 {
 		l, raw = scanLine(raw)
-		_, inspected, firstToken, _ := json.Parse(json.QueryNone, l)
-		if len(l) != inspected {
+		parsed, inspected, firstToken, _ := json.Parse(json.QueryNone, l)
+		// A line is either a complete JSON value or blank (nothing but whitespace).
+		blank := firstToken == json.TokInvalid && len(l) == inspected
+		if len(l) != parsed && !blank {
 			return false
 		}
 		if firstToken == json.TokArray || firstToken == json.TokObject {
